@@ -272,17 +272,6 @@ theorem updateB_step {st : Settings α} {perm : Array Nat} {S0 S : Solver α} {p
 
 /-! ### `solve()` -/
 
-/-- **`solve()` keeps the invariant** (and the data, and the ghost values: it rewrites only what the
-next `KKTSolver::update` rewrites) -/
-theorem solve_step {st : Settings α} {perm : Array Nat} {S0 S : Solver α} {pk ak : Array α}
-    (hb : Base st perm S0) (h : UInv st S0 S pk ak) {r : SolveResult α} (hs : S.solve st = .ok r) :
-    UInv st S0 r.S pk ak ∧ r.S.st.data = S.st.data := by
-  have hd := solve_data hs
-  obtain ⟨hsh, hco, sx, sz, ss⟩ := solve_frame hs h.conesOk
-  obtain ⟨hU, hI⟩ := solve_kstep hs h.kinv
-  exact ⟨⟨hd ▸ h.frame, h.sh.trans (Sh.of_sameShape hsh), hco, hI, KSync.step_upd hb.maps h.ksync hU,
-    sx.trans h.solx, ss.trans h.sols, sz.trans h.solz, h.pksz, h.aksz⟩, hd⟩
-
 /-- `get_normq(); get_normb()` touch the two caches only -/
 theorem fillNorms_frame {d d' : ProblemData α} (h : fillNorms d = .ok d') :
     d'.P = d.P ∧ d'.A = d.A ∧ d'.q = d.q ∧ d'.b = d.b ∧ DFrame d d' := by
@@ -292,22 +281,34 @@ theorem fillNorms_frame {d d' : ProblemData α} (h : fillNorms d = .ok d') :
   cases h
   exact ⟨rfl, rfl, rfl, rfl, SamePat.rfl' _, SamePat.rfl' _, rfl, rfl, rfl, rfl, rfl, rfl, rfl⟩
 
-/-- **`solve()` as an operation of a history** (`Solver.solveU`: `solve()` and the norm caches it fills)
-keeps the invariant, the matrices and the ghost values -/
+/-- **`solve()` keeps the invariant**, the matrices and the ghost values (it rewrites only what the
+next `KKTSolver::update` rewrites); of the data it writes the two norm caches only (`fillNorms`) -/
+theorem solve_step {st : Settings α} {perm : Array Nat} {S0 S : Solver α} {pk ak : Array α}
+    (hb : Base st perm S0) (h : UInv st S0 S pk ak) {r : SolveResult α} (hs : S.solve st = .ok r) :
+    UInv st S0 r.S pk ak ∧ fillNorms S.st.data = .ok r.S.st.data
+      ∧ r.S.st.data.P = S.st.data.P ∧ r.S.st.data.A = S.st.data.A := by
+  have hd := solve_data hs
+  obtain ⟨eP, eA, _, _, hf⟩ := fillNorms_frame hd
+  obtain ⟨hsh, hco, sx, sz, ss⟩ := solve_frame hs h.conesOk
+  obtain ⟨hU, hI⟩ := solve_kstep hs h.kinv
+  have hsh2 := h.sh.trans (Sh.of_sameShape hsh)
+  have hsh3 : Sh S0.st r.S.st :=
+    ⟨rfl, hsh2.variables, hsh2.rx, hsh2.rz, hsh2.rx_inf, hsh2.rz_inf, hsh2.Px, hsh2.x1, hsh2.z1, hsh2.x2,
+      hsh2.z2, hsh2.workx, hsh2.workz, hsh2.workConic, hsh2.cones, hsh2.stepLhs, hsh2.stepRhs,
+      hsh2.prevVars⟩
+  exact ⟨⟨h.frame.trans hf, hsh3, hco, hI, KSync.step_upd hb.maps h.ksync hU,
+    sx.trans h.solx, ss.trans h.sols, sz.trans h.solz, h.pksz, h.aksz⟩, hd, eP, eA⟩
+
+/-- `solve()` as an operation of a history IS `solve()` (since round 8 `Solver.solve` itself stores
+the norm caches `Info.update` filled in the object it returns) -/
+theorem solveU_eq_solve (S : Solver α) (st : Settings α) : S.solveU st = S.solve st := rfl
+
+/-- **`solve()` as an operation of a history** keeps the invariant, the matrices and the ghost values -/
 theorem solveU_step {st : Settings α} {perm : Array Nat} {S0 S : Solver α} {pk ak : Array α}
     (hb : Base st perm S0) (h : UInv st S0 S pk ak) {r : SolveResult α} (hs : S.solveU st = .ok r) :
-    UInv st S0 r.S pk ak ∧ r.S.st.data.P = S.st.data.P ∧ r.S.st.data.A = S.st.data.A := by
-  unfold Solver.solveU at hs
-  obtain ⟨r0, hr0, hs⟩ := bind_ok_inv hs
-  obtain ⟨d, hd, hs⟩ := bind_ok_inv hs
-  cases hs
-  obtain ⟨h1, hdat⟩ := solve_step hb h hr0
-  obtain ⟨eP, eA, _, _, hf⟩ := fillNorms_frame hd
-  refine ⟨h1.setData (h1.frame.trans hf), ?_, ?_⟩
-  · show d.P = _
-    rw [eP, hdat]
-  · show d.A = _
-    rw [eA, hdat]
+    UInv st S0 r.S pk ak ∧ r.S.st.data.P = S.st.data.P ∧ r.S.st.data.A = S.st.data.A :=
+  let ⟨h1, _, hP, hA⟩ := solve_step hb h hs
+  ⟨h1, hP, hA⟩
 
 end
 
